@@ -215,7 +215,7 @@ Proof.
   assert (Hc : addw w (addw w (addw w (if sg then addw w x0 (2 ^ (w - 2)) else x0) x1) r0) (addw w x2 (subw w r r0)) = c).
   { unfold c, shift4, addw, subw. fold M. apply cong_intro. destruct sg; (rewrite_strat (topdown cong_mod)); apply cong_of_eq; ring. }
   assert (Hcr : 0 <= c < 2 ^ w) by (apply Z.mod_pos_bound; exact HM).
-  unfold trunc2k, reveal.
+  cbv beta iota zeta delta [trunc2k trunc2k_full snd reveal].
   rewrite Hc. rewrite r_msb_eq by exact Hw1. rewrite r_trunc_eq by exact Hk. rewrite c_tm_eq by assumption.
   rewrite truncate_u_small by exact Hcr.
   fold M H P Q. fold rb rtr cm ctm.
@@ -429,11 +429,13 @@ Proof.
   assert (Hj : exists j, b = X - a + j * (2 * H)).
   { exists ((b - (X - a)) / (2 * H)).
     assert (E : (b - (X - a)) mod (2 * H) = 0).
-    { rewrite Zminus_mod, Hb, Z.sub_diag. apply Z.mod_0_l. lia. }
-    pose proof (Z.div_mod (b - (X - a)) (2 * H) ltac:(lia)) as D. rewrite E in D. lia. }
+    { rewrite Zminus_mod, Hb, Z.sub_diag. apply Z.mod_0_l. clear - HH; lia. }
+    assert (H2 : 2 * H <> 0) by (clear - HH; lia).
+    pose proof (Z.div_mod (b - (X - a)) (2 * H) H2) as D. rewrite E in D. clear - D.
+    set (q := (b - (X - a)) / (2 * H)) in *. clearbody q. lia. }
   destruct Hj as [j Hj]. clear Hb.
-  assert (j = -1 \/ j = 0 \/ j = 1) by nia.
-  split; intros Hcase; nia.
+  assert (Hj3 : j = -1 \/ j = 0 \/ j = 1) by nia.
+  destruct Hj3 as [-> | [-> | ->]]; split; intros Hcase; lia.
 Qed.
 
 Lemma nodup_interval_length (l : list Z) lo n :
